@@ -107,7 +107,14 @@ Proof. vm_compute. reflexivity. Qed.
 Example C39_ex_bytes : dv_marshal null_oracle (DBytes [x00; xff; x27; x41]) None KBytes FDescriptor
   = Some [x5c; x30; x30; x30; x5c; x33; x37; x37; x5c; x27; x41].
 Proof. vm_compute. reflexivity. Qed.
-(* the float hypotheses are satisfiable (by an oracle that formats a value as its
-   4/8 little-endian-free "bits" string would be; here: non-vacuity of the finite class) *)
+(* the five strconv hypotheses of C39_defval_float_partial are jointly
+   satisfiable (by a toy oracle that prints the bit pattern in decimal) *)
+Example C39_ex_float_hypotheses_consistent :
+  (forall b, finite32 b -> fo_parse32 toy_oracle (fo_fmt32 toy_oracle b) = FOk b) /\
+  (forall b, finite64 b -> fo_parse64 toy_oracle (fo_fmt64 toy_oracle b) = FOk b) /\
+  (forall b, finite32 b -> exists v, fo_parse64 toy_oracle (fo_fmt32 toy_oracle b) = FOk v) /\
+  (forall b, finite32 b -> fo_fmt32 toy_oracle b <> s_inf /\ fo_fmt32 toy_oracle b <> s_ninf /\ fo_fmt32 toy_oracle b <> s_nan) /\
+  (forall b, finite64 b -> fo_fmt64 toy_oracle b <> s_inf /\ fo_fmt64 toy_oracle b <> s_ninf /\ fo_fmt64 toy_oracle b <> s_nan).
+Proof. exact toy_oracle_ok. Qed.
 Example C39_ex_finite : finite32 1065353216 /\ finite64 4607182418800017408 /\ ~ finite32 f32_pinf.
 Proof. unfold finite32, finite64, f32_exp, f64_exp, f32_pinf. repeat split; try (vm_compute; congruence). intros [_ H]. apply H. reflexivity. Qed.
